@@ -82,7 +82,7 @@ func vfC04(w *vfWorld) {
 	// (--extra-jwt-issuers=issuer=audience); it signs with key 3, which the main issuer does not publish
 	idp2 := w.StartIdPAt("idp2.sim", 3)
 	idp2.IDTokenTTL = 30 * time.Hour
-	const aud2 = "partner-api"
+	const aud2 = "api://partner?tenant=blue" // (an audience may contain '=': the option is issuer=audience, split at the first one)
 	cs.ExtraIssuer = t.Prob("c04.extraissuer", 450)
 	if cs.ExtraIssuer {
 		cfg.Extra = append(cfg.Extra, "--extra-jwt-issuers="+idp2.issuer+"="+aud2)
@@ -408,7 +408,7 @@ func vfC04(w *vfWorld) {
 			x := t2{
 				iss:      []string{"idp2", "idp1", "other"}[t.Weighted("c04.b2.iss", 6, 2, 1)],
 				key:      []string{"idp2", "idp1", "none"}[t.Weighted("c04.b2.key", 6, 2, 1)],
-				aud:      []string{"aud2", "list-with-aud2", "main-client", "extra", "other", "absent"}[t.Weighted("c04.b2.aud", 6, 2, 2, 1, 1, 1)],
+				aud:      []string{"aud2", "list-with-aud2", "main-client", "extra", "other", "absent", "aud2-cut-at-equals"}[t.Weighted("c04.b2.aud", 6, 2, 2, 1, 1, 1, 2)],
 				exp:      []string{"future", "past"}[t.Weighted("c04.b2.exp", 8, 1)],
 				verified: []string{"true", "absent", "false", "string-false", "zero", "object"}[t.Weighted("c04.b2.verified", 6, 2, 1, 1, 1, 1)],
 			}
@@ -482,6 +482,8 @@ func vfC04(w *vfWorld) {
 					aud = "partner-app"
 				case "other":
 					aud = "someone-else"
+				case "aud2-cut-at-equals":
+					aud = aud2[:strings.LastIndex(aud2, "=")]
 				}
 				if aud != nil {
 					c[primaryAud] = aud
